@@ -383,10 +383,8 @@ class PeerConnection:
         self.socket_proto: int = 0
         """Connected socket protocol, either PEER_TRANSPORT_TCP or 
         PEER_TRANSPORT_SCTP."""
-        self.state: int = PEER_CLOSED
-        """The current peer state, one of `PEER_*` constants. The peer will 
-        go through a transition of CONNECTING - CONNECTED - READY and will not
-        handle any messages until the READY state has been reached."""
+        self._state_lock: threading.Lock = threading.Lock()
+        self._state: int = PEER_CLOSED
 
         self.reset_last_connect()
         self.reset_last_message()
@@ -462,6 +460,26 @@ class PeerConnection:
     def last_read_since(self) -> int:
         """Seconds since bytes were last receveid from the network."""
         return int(time.time()) - self._last_read
+
+    @property
+    def state(self) -> int:
+        """The current peer state, one of `PEER_*` constants. The peer will
+        go through a transition of CONNECTING - CONNECTED - READY and will not
+        handle any messages until the READY state has been reached."""
+        return self._state
+
+    @state.setter
+    def state(self, new_state: int):
+        # The state is changed by the node's connection thread (watchdog
+        # timers), by the connection's own read thread (received DWA, DPR,
+        # DPA) and by whoever stops the node. A connection that has begun to
+        # disconnect must not be put back into a ready state by a watchdog
+        # being sent or answered at the same moment.
+        with self._state_lock:
+            if (new_state in PEER_READY_STATES and
+                    self._state in (PEER_DISCONNECTING, PEER_CLOSING)):
+                return
+            self._state = new_state
 
     @property
     def write_buffer(self) -> bytes:
